@@ -157,6 +157,10 @@ func c14entries() []c14entry {
 		{"Warnf(%w %v %d)", "native", func(l slog.Logger, _ *stdslog.Logger, _ *stdlog.Logger, c context.Context) []site { s := here(); _ = l.Warnf("%s: %w %v %d %%", cm, stackErr, nil, 7); return s }, 0},
 		{"Infof(no verbs)", "native", func(l slog.Logger, _ *stdslog.Logger, _ *stdlog.Logger, c context.Context) []site { s := here(); _ = l.Infof(cm); return s }, 0},
 		{"log.Output", "bridge", func(_ slog.Logger, _ *stdslog.Logger, bl *stdlog.Logger, c context.Context) []site { s := here(); _ = bl.Output(1, cm); return s }, 0},
+		{"slog.Logger.Log(LevelFatal)", "slogadapter", func(_ slog.Logger, sl *stdslog.Logger, _ *stdlog.Logger, c context.Context) []site { s := here(); sl.Log(c, slog.LevelFatal, cm, "a", 1); return s }, 0},
+		{"slog.Logger.LogAttrs(LevelPanic)", "slogadapter", func(_ slog.Logger, sl *stdslog.Logger, _ *stdlog.Logger, c context.Context) []site { s := here(); sl.LogAttrs(c, slog.LevelPanic, cm, stdslog.Int("a", 1)); return s }, 0},
+		{"slog.Logger.Log(an application level above Error)", "slogadapter", func(_ slog.Logger, sl *stdslog.Logger, _ *stdlog.Logger, c context.Context) []site { s := here(); sl.Log(c, stdslog.Level(29), cm, "a", 1); return s }, 0},
+		{"helper in another source file, inlined into this statement", "native", func(l slog.Logger, _ *stdslog.Logger, _ *stdlog.Logger, c context.Context) []site { s := here(); c14inlInfo(l); return append([]site{c14inlSite()}, s...) }, 0},
 	}
 }
 
